@@ -462,13 +462,15 @@ func gen(r *vlib.R, n int, tier string, emit func(string)) {
 		genExhaustive(emit)
 	}
 	for n > 0 {
-		switch k := r.Intn(10); {
-		case k < 6:
+		switch k := r.Intn(20); {
+		case k < 11:
 			n -= genNsecCase(r, emit)
-		case k < 9:
+		case k < 16:
 			n -= genNsec3Case(r, emit)
-		default:
+		case k < 18:
 			n -= genAdmCase(r, emit)
+		default:
+			n -= genExpCase(r, emit)
 		}
 	}
 }
